@@ -219,56 +219,383 @@ End Ops2.
 
 #[export] Hint Rewrite pre_op_place post_op_place cbs_op_place ntr_op_place ncb_op_place pl_op_place ap_op_place di_op_place fr_op_place re_op_place pre_op_trans post_op_trans cbs_op_trans ntr_op_trans ncb_op_trans pl_op_trans ap_op_trans di_op_trans fr_op_trans re_op_trans pre_op_in post_op_in cbs_op_in ntr_op_in ncb_op_in pl_op_in ap_op_in di_op_in fr_op_in re_op_in pre_op_out post_op_out cbs_op_out ntr_op_out ncb_op_out pl_op_out ap_op_out di_op_out fr_op_out re_op_out pre_op_cb post_op_cb cbs_op_cb ntr_op_cb ncb_op_cb pl_op_cb ap_op_cb di_op_cb fr_op_cb re_op_cb pre_op_api post_op_api cbs_op_api ntr_op_api ncb_op_api pl_op_api ap_op_api di_op_api fr_op_api re_op_api pre_op_dict post_op_dict cbs_op_dict ntr_op_dict ncb_op_dict pl_op_dict ap_op_dict di_op_dict fr_op_dict re_op_dict : netops.
 
-(* ---- generate_service as a composition of the operations ---- *)
-Definition svc_ops (n : name) (ins : list param) (at_ : site) (ctx t1 t2 : nat) (s : NS) : NS :=
-  let a := List.length (ns_apis s) in
-  let s1 := op_api (svc_api n at_ ins ctx (ns_fresh s)) s in
-  let started := List.length (ns_places s1) in
-  let s2 := op_place s1 in
-  let finished := List.length (ns_places s2) in
-  let s3 := op_place s2 in
-  let s4 := op_dict (IUuid (ns_fresh s)) finished s3 in
-  let done := List.length (ns_places s4) in
-  let s5 := op_place s4 in
-  let dt := List.length (ns_trans s5) in
-  let s6 := op_trans s5 in
-  op_in done t2 (op_out started t1 (op_out done dt (op_in finished dt (op_in started dt
-    (op_cb dt (CbSF a) (op_cb t1 (CbSS a) s6)))))).
 
-Lemma generate_service_eq : forall n ins at_ ctx t1 t2 s,
-    generate_service n ins at_ ctx t1 t2 false s
-    = Ok ([List.length (ns_trans s)], svc_ops n ins at_ ctx t1 t2 s).
+(* ---- stepping through monadic generator code ---- *)
+Lemma nbind_ok : forall A B (m : NetModel.N A) (k : A -> NetModel.N B) s a s',
+    m s = Ok (a, s') -> nbind m k s = k a s'.
+Proof. intros A B m k s a s' H. unfold nbind. rewrite H. reflexivity. Qed.
+
+Definition op_fresh (s : NS) : NS := s <| ns_fresh := S (ns_fresh s) |>.
+Lemma nbind_fresh : forall B (k : ident -> NetModel.N B) s,
+    nbind fresh_uuid k s = k (IUuid (ns_fresh s)) (op_fresh s).
+Proof. reflexivity. Qed.
+Lemma nbind_new_api : forall B a (k : nat -> NetModel.N B) s,
+    nbind (new_api a) k (op_fresh s) = k (List.length (ns_apis s)) (op_api a s).
 Proof. reflexivity. Qed.
 
-Lemma pg_call_eq : forall ctx t at_ ins body t1 t2 s,
-    pg_stmt ctx (XCall t at_ ins body) t1 t2 s =
-    match pg_block (List.length (ns_apis s)) body t1 t2
-                   (op_cb t1 (CbTS (List.length (ns_apis s))) (op_api (call_api t at_ ins ctx (ns_fresh s)) s)) with
-    | Ok (ex, s2) =>
-      match nfor ex (fun e => add_callback e (CbTF (List.length (ns_apis s)))) s2 with
-      | Ok (_, s3) => Ok (ex, s3)
-      | Fuel => Fuel | Exn k => Exn k | Unsupported => Unsupported
-      end
-    | Fuel => Fuel | Exn k => Exn k | Unsupported => Unsupported
-    end.
+Lemma dict_mod_eq : forall u p s,
+    nmod (fun s => s <| ns_place_dict := (u, p) :: ns_place_dict s |>) s = Ok (tt, op_dict u p s).
+Proof. reflexivity. Qed.
+
+Global Opaque op_place op_trans op_in op_out op_cb op_api op_dict op_fresh.
+
+Ltac gstep :=
+  first [ rewrite (nbind_ok _ _ _ _ _ _ _ (create_place_eq _))
+        | rewrite (nbind_ok _ _ _ _ _ _ _ (create_transition_eq _))
+        | rewrite (nbind_ok _ _ _ _ _ _ _ (add_input_eq _ _ _))
+        | rewrite (nbind_ok _ _ _ _ _ _ _ (add_output_eq _ _ _))
+        | rewrite (nbind_ok _ _ _ _ _ _ _ (add_callback_eq _ _ _))
+        | rewrite (nbind_ok _ _ _ _ _ _ _ (dict_mod_eq _ _ _)) ].
+
+Definition pos_of (s : NS) : pos :=
+  mkpos (List.length (ns_places s)) (List.length (ns_trans s)) (List.length (ns_apis s)).
+
+Lemma generate_service_eq : forall n ins at_ ctx t1 t2 s,
+    let p := pos_of s in
+    generate_service n ins at_ ctx t1 t2 false s
+    = Ok ([pt p],
+          op_in (pp p + 2) t2 (op_out (pp p) t1 (op_out (pp p + 2) (pt p) (op_in (pp p + 1) (pt p) (op_in (pp p) (pt p)
+            (op_cb (pt p) (CbSF (pa p)) (op_cb t1 (CbSS (pa p))
+              (op_trans (op_place (op_dict (IUuid (ns_fresh s)) (pp p + 1) (op_place (op_place
+                 (op_api (svc_api n at_ ins ctx (ns_fresh s)) s))))))))))))).
 Proof.
-  intros. cbn [pg_stmt]. unfold nbind at 1. unfold fresh_uuid at 1. unfold nbind at 1. unfold new_api at 1.
-  unfold nbind at 1. unfold add_callback at 1, nmod at 1. unfold nbind at 1. unfold pg_block.
-  match goal with |- match ?X with _ => _ end = match ?Y with _ => _ end => change X with Y; destruct Y as [[ex s2]| | |] end;
-    try reflexivity.
-  unfold nbind, nret. destruct (nfor ex _ s2) as [[[] s3]| | |]; reflexivity.
+  intros. unfold generate_service.
+  rewrite nbind_fresh, nbind_new_api.
+  repeat gstep. autorewrite with netops.
+  rewrite !app_length. cbn [List.length]. unfold nret, p, pos_of. cbn [pp pt pa].
+  repeat (f_equal; try lia).
 Qed.
 
-Lemma pg_par_eq : forall ctx bs t1 t2 s,
-    pg_stmt ctx (XParallel bs) t1 t2 s =
-    match pg_calls pg_stmt ctx t1 (List.length (ns_trans s)) bs (op_place (op_trans s)) with
-    | Ok (_, s2) => Ok ([List.length (ns_trans s)],
-                        op_in (List.length (ns_places s)) t2 (op_out (List.length (ns_places s)) (List.length (ns_trans s)) s2))
-    | Fuel => Fuel | Exn k => Exn k | Unsupported => Unsupported
-    end.
+(* ---- what generating one component does to the rest of the net ---- *)
+Definition okns (s : NS) : Prop :=
+  List.length (ns_cbs s) = List.length (ns_trans s) /\ ns_fresh s = List.length (ns_apis s).
+
+Record GenF (ns ns' : NS) (fpre fpost : nat -> list nat) (fcbs : nat -> list cb) : Prop := {
+  gn_places : ns_places ns' = ns_places ns ++ repeat (Some 0) (List.length (ns_places ns') - List.length (ns_places ns));
+  gn_ntr : List.length (ns_trans ns) <= List.length (ns_trans ns');
+  gn_napi : List.length (ns_apis ns) <= List.length (ns_apis ns');
+  gn_apis : forall j, j < List.length (ns_apis ns) -> nth_error (ns_apis ns') j = nth_error (ns_apis ns) j;
+  gn_pre : forall j, j < List.length (ns_trans ns) -> preN ns' j = preN ns j ++ fpre j;
+  gn_post : forall j, j < List.length (ns_trans ns) -> postN ns' j = postN ns j ++ fpost j;
+  gn_cbs : forall j, j < List.length (ns_trans ns) -> cbsN ns' j = cbsN ns j ++ fcbs j;
+  gn_dict : exists d, ns_place_dict ns' = d ++ ns_place_dict ns /\
+                      Forall (fun kv => exists k, fst kv = IUuid k /\ List.length (ns_apis ns) <= k) d;
+  gn_rest : rest_of ns' = rest_of ns
+}.
+
+(* entering transition t1 gains the entry arcs and the start callbacks, the transition after
+   the component (t2) gains the exit place as input; nothing else changes *)
+Definition Gen (ns ns' : NS) (t1 t2 : nat) (ents : list nat) (scbs : list cb) (xp : list nat) : Prop :=
+  GenF ns ns' (fun j => if Nat.eqb j t2 then xp else []) (fun j => if Nat.eqb j t1 then ents else [])
+       (fun j => if Nat.eqb j t1 then scbs else []).
+
+Lemma preN_beyond : forall s j, List.length (ns_trans s) <= j -> preN s j = [].
+Proof. intros s j H. unfold preN. rewrite nth_overflow by exact H. reflexivity. Qed.
+Lemma postN_beyond : forall s j, List.length (ns_trans s) <= j -> postN s j = [].
+Proof. intros s j H. unfold postN. rewrite nth_overflow by exact H. reflexivity. Qed.
+Lemma cbsN_beyond : forall s j, List.length (ns_cbs s) <= j -> cbsN s j = [].
+Proof. intros s j H. unfold cbsN. rewrite nth_overflow by exact H. reflexivity. Qed.
+
+Ltac eqb_cases :=
+  repeat match goal with
+         | |- context [Nat.eqb ?a ?b] => destruct (Nat.eqb_spec a b); try lia
+         | |- context [Nat.ltb ?a ?b] => destruct (Nat.ltb_spec a b); try lia
+         end.
+
+Lemma gen_service : forall n ins at_ ctx t1 t2 s,
+    okns s -> t1 < List.length (ns_trans s) -> t2 < List.length (ns_trans s) ->
+    let p := pos_of s in
+    exists s', generate_service n ins at_ ctx t1 t2 false s = Ok ([exit_t (XService n at_ ins) p], s') /\
+               Gen s s' t1 t2 [pp p] [CbSS (pa p)] [pp p + 2] /\
+               pos_of s' = adv (XService n at_ ins) p /\ okns s' /\
+               wired s' (XService n at_ ins) p ctx [].
 Proof.
-  intros. cbn [pg_stmt]. unfold nbind at 1. rewrite create_transition_eq. unfold nbind at 1.
-  unfold create_place at 1. unfold nbind at 1.
-  match goal with |- match ?X with _ => _ end = match ?Y with _ => _ end => change X with Y; destruct Y as [[[] s2]| | |] end;
-    reflexivity.
+  intros n ins at_ ctx t1 t2 s [Hcb Hfr] H1 H2 p. rewrite generate_service_eq. fold p.
+  eexists. split; [reflexivity|].
+  assert (Hp : pt p = List.length (ns_trans s)) by reflexivity.
+  assert (Hpp : pp p = List.length (ns_places s)) by reflexivity.
+  assert (Hpa : pa p = List.length (ns_apis s)) by reflexivity.
+  split; [|split; [|split; [|]]].
+  - unfold Gen. constructor; try intros j Hj; autorewrite with netops.
+    + rewrite !app_length. cbn [List.length]. rewrite <- !app_assoc. cbn [app].
+      replace (List.length (ns_places s) + 1 + 1 + 1 - List.length (ns_places s)) with 3 by lia. reflexivity.
+    + lia.
+    + rewrite app_length. lia.
+    + rewrite nth_error_app1 by exact Hj. reflexivity.
+    + rewrite ?Hcb, ?Hp. eqb_cases; cbn [andb]; rewrite ?app_nil_r; reflexivity.
+    + rewrite ?Hcb, ?Hp. eqb_cases; cbn [andb]; rewrite ?app_nil_r; reflexivity.
+    + rewrite ?Hcb, ?Hp. eqb_cases; cbn [andb]; rewrite ?app_nil_r; reflexivity.
+    + exists [(IUuid (ns_fresh s), pp p + 1)]. split; [reflexivity|]. constructor; [|constructor].
+      exists (ns_fresh s). split; [reflexivity|lia].
+    + reflexivity.
+  - unfold pos_of, adv. autorewrite with netops. rewrite !app_length. cbn [List.length nplaces ntrans napis pp pt pa].
+    f_equal; lia.
+  - split; autorewrite with netops; [lia|]. rewrite app_length. cbn. lia.
+  - cbn [wired]. autorewrite with netops. rewrite Hcb, Hp.
+    rewrite (preN_beyond s), (postN_beyond s), (cbsN_beyond s) by lia.
+    repeat split.
+    + eqb_cases; cbn [andb app]; reflexivity.
+    + eqb_cases; cbn [andb app]; reflexivity.
+    + eqb_cases; cbn [andb app]; reflexivity.
+    + exists (svc_api n at_ ins ctx (ns_fresh s)). split.
+      * rewrite Hpa, nth_error_app2, Nat.sub_diag by lia. reflexivity.
+      * rewrite Hpa, <- Hfr. reflexivity.
+    + rewrite Hpa, <- Hfr. cbn [dict_get ident_eqb]. rewrite Nat.eqb_refl. reflexivity.
+Qed.
+
+(* ---- algebra of frames ---- *)
+Definition fnil {A} : nat -> list A := fun _ => [].
+
+Lemma GenF_trans : forall ns ns1 ns2 f1 g1 h1 f2 g2 h2,
+    GenF ns ns1 f1 g1 h1 -> GenF ns1 ns2 f2 g2 h2 ->
+    GenF ns ns2 (fun j => f1 j ++ f2 j) (fun j => g1 j ++ g2 j) (fun j => h1 j ++ h2 j).
+Proof.
+  intros ns ns1 ns2 f1 g1 h1 f2 g2 h2 A B.
+  destruct A as [Ap Ant Ana Aap Apre Apost Acbs (d1 & Ad & Ak) Ar].
+  destruct B as [Bp Bnt Bna Bap Bpre Bpost Bcbs (d2 & Bd & Bk) Br].
+  constructor.
+  - assert (L1 : List.length (ns_places ns1) = List.length (ns_places ns) + (List.length (ns_places ns1) - List.length (ns_places ns))).
+    { rewrite Ap at 1. rewrite app_length, repeat_length. reflexivity. }
+    assert (L2 : List.length (ns_places ns2) = List.length (ns_places ns1) + (List.length (ns_places ns2) - List.length (ns_places ns1))).
+    { rewrite Bp at 1. rewrite app_length, repeat_length. reflexivity. }
+    rewrite Bp, Ap at 1. rewrite <- app_assoc, <- repeat_app. f_equal. f_equal. lia.
+  - lia.
+  - lia.
+  - intros j Hj. rewrite Bap by lia. apply Aap. exact Hj.
+  - intros j Hj. rewrite Bpre by lia. rewrite Apre by exact Hj. rewrite app_assoc. reflexivity.
+  - intros j Hj. rewrite Bpost by lia. rewrite Apost by exact Hj. rewrite app_assoc. reflexivity.
+  - intros j Hj. rewrite Bcbs by lia. rewrite Acbs by exact Hj. rewrite app_assoc. reflexivity.
+  - exists (d2 ++ d1). split; [rewrite Bd, Ad, app_assoc; reflexivity|].
+    apply Forall_app. split; [|exact Ak].
+    eapply Forall_impl; [|exact Bk]. intros kv (k & E & Hk). exists k. split; [exact E|lia].
+  - congruence.
+Qed.
+
+Lemma GenF_ext : forall ns ns' f g h f' g' h',
+    GenF ns ns' f g h ->
+    (forall j, j < List.length (ns_trans ns) -> f j = f' j /\ g j = g' j /\ h j = h' j) ->
+    GenF ns ns' f' g' h'.
+Proof.
+  intros ns ns' f g h f' g' h' [Ap Ant Ana Aap Apre Apost Acbs Ad Ar] E.
+  constructor; try assumption.
+  - intros j Hj. rewrite Apre by exact Hj. f_equal. apply E. exact Hj.
+  - intros j Hj. rewrite Apost by exact Hj. f_equal. apply E. exact Hj.
+  - intros j Hj. rewrite Acbs by exact Hj. f_equal. apply E. exact Hj.
+Qed.
+
+Lemma places_self : forall s : NS, ns_places s = ns_places s ++ repeat (Some 0) (List.length (ns_places s) - List.length (ns_places s)).
+Proof. intro s. rewrite Nat.sub_diag. cbn. rewrite app_nil_r. reflexivity. Qed.
+
+Lemma dict_self : forall s : NS, exists d, ns_place_dict s = d ++ ns_place_dict s /\
+                      Forall (fun kv => exists k, fst kv = IUuid k /\ List.length (ns_apis s) <= k) d.
+Proof. intro s. exists []. split; [reflexivity|constructor]. Qed.
+
+Lemma GenF_op_trans : forall s, GenF s (op_trans s) fnil fnil fnil.
+Proof.
+  intro s. constructor; try intros j Hj; autorewrite with netops; unfold fnil; rewrite ?app_nil_r; try reflexivity; try lia.
+  - apply places_self.
+  - apply dict_self.
+Qed.
+
+Lemma GenF_op_place : forall s, GenF s (op_place s) fnil fnil fnil.
+Proof.
+  intro s. constructor; try intros j Hj; autorewrite with netops; unfold fnil; rewrite ?app_nil_r; try reflexivity; try lia.
+  - rewrite app_length. cbn [List.length]. replace (List.length (ns_places s) + 1 - List.length (ns_places s)) with 1 by lia. reflexivity.
+  - apply dict_self.
+Qed.
+
+Lemma GenF_op_in : forall p t s,
+    GenF s (op_in p t s) (fun j => if Nat.eqb j t then [p] else []) fnil fnil.
+Proof.
+  intros p t s. constructor; try intros j Hj; autorewrite with netops; unfold fnil; rewrite ?app_nil_r; try reflexivity; try lia.
+  - apply places_self.
+  - eqb_cases; reflexivity.
+  - apply dict_self.
+Qed.
+
+Lemma GenF_op_out : forall p t s,
+    GenF s (op_out p t s) fnil (fun j => if Nat.eqb j t then [p] else []) fnil.
+Proof.
+  intros p t s. constructor; try intros j Hj; autorewrite with netops; unfold fnil; rewrite ?app_nil_r; try reflexivity; try lia.
+  - apply places_self.
+  - eqb_cases; reflexivity.
+  - apply dict_self.
+Qed.
+
+Lemma GenF_op_cb : forall t c s, List.length (ns_cbs s) = List.length (ns_trans s) ->
+    GenF s (op_cb t c s) fnil fnil (fun j => if Nat.eqb j t then [c] else []).
+Proof.
+  intros t c s Hl. constructor; try intros j Hj; autorewrite with netops; unfold fnil; rewrite ?app_nil_r; try reflexivity; try lia.
+  - apply places_self.
+  - rewrite Hl. eqb_cases; reflexivity.
+  - apply dict_self.
+Qed.
+
+Lemma GenF_op_api : forall a s, GenF s (op_api a s) fnil fnil fnil.
+Proof.
+  intros a s. constructor; try intros j Hj; autorewrite with netops; unfold fnil; rewrite ?app_nil_r; try reflexivity; try lia.
+  - apply places_self.
+  - rewrite app_length. lia.
+  - rewrite nth_error_app1 by exact Hj. reflexivity.
+  - apply dict_self.
+Qed.
+
+Lemma GenF_refl : forall s, GenF s s fnil fnil fnil.
+Proof.
+  intro s. constructor; try intros j Hj; unfold fnil; rewrite ?app_nil_r; try reflexivity; try lia.
+  - apply places_self.
+  - apply dict_self.
+Qed.
+
+Lemma wired_ext : forall N N' s, frag s = true -> forall p ctx xcbs,
+    agree N N' p (ntrans s) (napis s) (exit_t s p) [] ->
+    wired N s p ctx xcbs -> wired N' s p ctx xcbs.
+Proof.
+  intros N N' s Hf p ctx xcbs Hag Hw.
+  pose proof (wired_agree N N' (exit_t s p) [] s Hf p ctx xcbs Hag (or_intror eq_refl) Hw) as H.
+  rewrite Nat.eqb_refl, app_nil_r in H. exact H.
+Qed.
+
+Lemma GenF_agree : forall ns1 ns2 f g h p dt da e,
+    GenF ns1 ns2 f g h ->
+    (forall j, pt p <= j < pt p + dt -> f j = [] /\ g j = [] /\ h j = []) ->
+    pt p + dt <= List.length (ns_trans ns1) -> pa p + da <= List.length (ns_apis ns1) ->
+    agree ns1 ns2 p dt da e [].
+Proof.
+  intros ns1 ns2 f g h p dt da e [Ap Ant Ana Aap Apre Apost Acbs (d & Ad & Ak) Ar] Hz Ht Ha.
+  split; [|split].
+  - intros j Hj. destruct (Hz j Hj) as (E1 & E2 & E3).
+    rewrite Apre, Apost, Acbs by lia. rewrite E1, E2, E3, !app_nil_r.
+    destruct (Nat.eqb e j); rewrite ?app_nil_r; auto.
+  - intros j Hj. apply Aap. lia.
+  - exists d. split; [exact Ad|]. eapply Forall_impl; [|exact Ak].
+    intros kv (k & E & Hk). exists k. split; [exact E|lia].
+Qed.
+
+(* ---- the statement proved by induction over the unfolded tree ---- *)
+Definition GenOK (s : xstmt) : Prop :=
+  frag s = true -> forall ctx t1 t2 ns,
+    okns ns -> t1 < List.length (ns_trans ns) -> t2 < List.length (ns_trans ns) ->
+    let p := pos_of ns in
+    exists ns', pg_stmt ctx s t1 t2 ns = Ok ([exit_t s p], ns') /\
+                Gen ns ns' t1 t2 (entries s p) (startcbs s p) [xplace s p] /\
+                pos_of ns' = adv s p /\ okns ns' /\ wired ns' s p ctx [].
+
+Definition adv_l (l : list xstmt) (q : pos) : pos :=
+  mkpos (pp q + nplaces_l l) (pt q + ntrans_l l) (pa q + napis_l l).
+Definition adv_b (l : list xstmt) (q : pos) : pos :=
+  mkpos (pp q + nplaces_l l) (pt q + ntrans_b l) (pa q + napis_l l).
+
+Lemma pos_eta : forall p, mkpos (pp p) (pt p) (pa p) = p.
+Proof. intros []; reflexivity. Qed.
+
+Lemma gen_calls : forall l, Forall GenOK l -> frag_brs l = true ->
+    forall ctx t1 sync ns,
+      okns ns -> t1 < List.length (ns_trans ns) -> sync < List.length (ns_trans ns) ->
+      let q := pos_of ns in
+      exists ns', pg_calls pg_stmt ctx t1 sync l ns = Ok (tt, ns') /\
+                  Gen ns ns' t1 sync (cat_of entries l q) (cat_of startcbs l q) (cat_of (fun b q => [xplace b q]) l q) /\
+                  pos_of ns' = adv_l l q /\ okns ns' /\ wired_list (wired ns') ctx l q.
+Proof.
+  induction l as [|b r IH]; intros HF Hf ctx t1 sync ns Hok H1 H2 q.
+  - exists ns. split; [reflexivity|]. split; [|split; [|split; [exact Hok|exact I]]].
+    + unfold Gen. eapply GenF_ext; [apply GenF_refl|]. intros j _. cbn [cat_of]. unfold fnil.
+      destruct (Nat.eqb j sync), (Nat.eqb j t1); auto.
+    + unfold adv_l, nplaces_l, ntrans_l, napis_l. cbn [map list_sum fold_right]. rewrite !Nat.add_0_r. symmetry. apply pos_eta.
+  - inversion HF as [|? ? Hb Hr]; subst. apply frag_brs_cons in Hf. destruct Hf as (_ & Hfb & Hfr).
+    destruct (Hb Hfb ctx t1 sync ns Hok H1 H2) as (ns1 & E1 & G1 & P1 & Ok1 & W1). fold q in E1, G1, P1, W1.
+    assert (L1 : List.length (ns_trans ns) <= List.length (ns_trans ns1)) by (apply (gn_ntr _ _ _ _ _ G1)).
+    destruct (IH Hr Hfr ctx t1 sync ns1 Ok1 ltac:(lia) ltac:(lia)) as (ns2 & E2 & G2 & P2 & Ok2 & W2).
+    rewrite ?P1 in G2, P2, W2.
+    exists ns2. split; [|split; [|split; [|split; [exact Ok2|]]]].
+    + cbn [pg_calls]. unfold nbind. rewrite E1. exact E2.
+    + unfold Gen in *. eapply GenF_ext; [eapply GenF_trans; [exact G1|exact G2]|].
+      intros j Hj. cbn beta. cbn [cat_of]. destruct (Nat.eqb j sync), (Nat.eqb j t1); auto.
+    + rewrite P2. unfold adv_l, adv. cbn [pp pt pa]. rewrite nplaces_l_cons, ntrans_l_cons, napis_l_cons. f_equal; lia.
+    + cbn [wired_list]. split; [|exact W2].
+      apply (wired_ext ns1 ns2 b Hfb q ctx []); [|exact W1].
+      eapply GenF_agree; [exact G2| | |].
+      * intros j Hj. unfold q, pos_of in Hj. cbn [pt] in Hj.
+        assert (Es : Nat.eqb j sync = false) by (apply Nat.eqb_neq; lia).
+        assert (Et : Nat.eqb j t1 = false) by (apply Nat.eqb_neq; lia).
+        cbn beta. rewrite Es, Et. auto.
+      * pose proof (f_equal pt P1) as Ept. unfold pos_of, adv in Ept. cbn [pt] in Ept. lia.
+      * pose proof (f_equal pa P1) as Epa. unfold pos_of, adv in Epa. cbn [pa] in Epa. lia.
+Qed.
+
+Lemma okns_op_trans : forall s, okns s -> okns (op_trans s).
+Proof. intros s [H1 H2]. split; autorewrite with netops; [lia|exact H2]. Qed.
+Lemma pos_op_trans : forall s, pos_of (op_trans s) = conn_skip (pos_of s).
+Proof. intro s. unfold pos_of, conn_skip. autorewrite with netops. reflexivity. Qed.
+
+Lemma gen_block_go : forall l, Forall GenOK l -> frag_block l = true ->
+    forall n i prev acc ctx last ns,
+      i + List.length l = n -> okns ns ->
+      prev < List.length (ns_trans ns) -> last < List.length (ns_trans ns) ->
+      let p := pos_of ns in
+      exists ns', pg_block_go pg_stmt ctx n last i l prev acc ns = Ok ([exit_b l p], ns') /\
+                  Gen ns ns' prev last (entries_b l p) (startcbs_b l p) [xplace_b l p] /\
+                  pos_of ns' = adv_b l p /\ okns ns' /\ wired_block (wired ns') ns' ctx [] l p.
+Proof.
+  induction l as [|s r IH]; intros HF Hf n i prev acc ctx last ns Hn Hok H1 H2 p; [discriminate|].
+  inversion HF as [|? ? Hs Hr]; subst. apply frag_block_cons in Hf. destruct Hf as [Hfs Hfr].
+  destruct r as [|s' r].
+  - (* last statement: wired to [last] *)
+    cbn [pg_block_go List.length].
+    assert (Ecur : (if Nat.ltb 1 (i + 1) then if Nat.ltb i (i + 1 - 1) then create_transition else nret last else nret last)
+                   = nret last).
+    { replace (i + 1 - 1) with i by lia. rewrite Nat.ltb_irrefl. destruct (Nat.ltb 1 (i + 1)); reflexivity. }
+    rewrite Ecur. unfold nbind at 1. unfold nret at 1.
+    destruct (Hs Hfs ctx prev last ns Hok H1 H2) as (ns1 & E1 & G1 & P1 & Ok1 & W1). fold p in E1, G1, P1, W1.
+    exists ns1. split; [|split; [|split; [|split; [exact Ok1|]]]].
+    + unfold nbind. rewrite E1. reflexivity.
+    + exact G1.
+    + rewrite P1. unfold adv, adv_b. rewrite nplaces_l_one, napis_l_one, ntrans_b_one. reflexivity.
+    + exact W1.
+  - destruct Hfr as [Hfr|Hfr]; [discriminate|].
+    cbn [pg_block_go]. cbn [List.length] in *.
+    assert (Ecur : (if Nat.ltb 1 (i + S (S (List.length r)))
+                    then if Nat.ltb i (i + S (S (List.length r)) - 1) then create_transition else nret last
+                    else nret last) = create_transition).
+    { rewrite (proj2 (Nat.ltb_lt 1 _)) by lia. rewrite (proj2 (Nat.ltb_lt i _)) by lia. reflexivity. }
+    rewrite Ecur. rewrite (nbind_ok _ _ _ _ _ _ _ (create_transition_eq _)).
+    set (cur := List.length (ns_trans ns)).
+    pose proof (okns_op_trans ns Hok) as Ok0.
+    assert (L0 : List.length (ns_trans (op_trans ns)) = S cur) by (autorewrite with netops; reflexivity).
+    destruct (Hs Hfs ctx prev cur (op_trans ns) Ok0 ltac:(lia) ltac:(lia)) as (ns1 & E1 & G1 & P1 & Ok1 & W1).
+    rewrite pos_op_trans in E1, G1, P1, W1. fold p in E1, G1, P1, W1.
+    set (ps := conn_skip p) in *.
+    assert (L1 : S cur <= List.length (ns_trans ns1)) by (rewrite <- L0; apply (gn_ntr _ _ _ _ _ G1)).
+    destruct (IH Hr Hfr (i + S (S (List.length r))) (S i) cur [exit_t s ps] ctx last ns1 ltac:(cbn [List.length]; lia) Ok1 ltac:(lia) ltac:(lia))
+      as (ns2 & E2 & G2 & P2 & Ok2 & W2).
+    rewrite ?P1 in E2, G2, P2, W2. set (pr := adv s ps) in *.
+    exists ns2. split; [|split; [|split; [|split; [exact Ok2|]]]].
+    + unfold nbind at 1. rewrite E1. unfold exit_b. rewrite last_of_cons. exact E2.
+    + unfold Gen in *.
+      eapply GenF_ext; [eapply GenF_trans; [apply GenF_op_trans|eapply GenF_trans; [exact G1|exact G2]]|].
+      intros j Hj. fold cur in Hj. cbn beta. unfold fnil.
+      assert (Ec : Nat.eqb j cur = false) by (apply Nat.eqb_neq; lia). rewrite Ec. cbn [app].
+      unfold xplace_b. rewrite last_of_cons. fold ps. fold pr. rewrite !app_nil_r.
+      unfold entries_b, startcbs_b. cbn [first_pos]. fold ps. auto.
+    + rewrite P2. unfold adv_b, pr, adv, ps, conn_skip. cbn [pp pt pa].
+      rewrite nplaces_l_cons, napis_l_cons, ntrans_b_cons. f_equal; lia.
+    + cbn [wired_block]. cbv zeta. fold ps. fold pr.
+      assert (Hcur : pt p = cur) by reflexivity. rewrite Hcur.
+      assert (Ecl : Nat.eqb cur last = false) by (apply Nat.eqb_neq; unfold cur; lia).
+      assert (Ecp : Nat.eqb cur prev = false) by (apply Nat.eqb_neq; unfold cur; lia).
+      unfold Gen in G1, G2.
+      rewrite (gn_pre _ _ _ _ _ G2 cur), (gn_post _ _ _ _ _ G2 cur), (gn_cbs _ _ _ _ _ G2 cur) by lia.
+      rewrite (gn_pre _ _ _ _ _ G1 cur), (gn_post _ _ _ _ _ G1 cur), (gn_cbs _ _ _ _ _ G1 cur) by lia.
+      autorewrite with netops.
+      rewrite (preN_beyond ns), (postN_beyond ns), (cbsN_beyond ns) by (destruct Hok; unfold cur; lia).
+      rewrite Nat.eqb_refl, Ecl, Ecp. cbn [app]. rewrite !app_nil_r.
+      split; [reflexivity|]. split; [reflexivity|]. split; [reflexivity|]. split; [|exact W2].
+      apply (wired_ext ns1 ns2 s Hfs ps ctx []); [|exact W1].
+      eapply GenF_agree; [exact G2| | |].
+      * intros j Hj. unfold ps, conn_skip, p, pos_of in Hj. cbn [pt] in Hj. fold cur in Hj.
+        assert (Es : Nat.eqb j last = false) by (apply Nat.eqb_neq; lia).
+        assert (Et : Nat.eqb j cur = false) by (apply Nat.eqb_neq; lia).
+        cbn beta. rewrite Es, Et. auto.
+      * pose proof (f_equal pt P1) as Ept. unfold pos_of, adv in Ept. cbn [pt] in Ept. lia.
+      * pose proof (f_equal pa P1) as Epa. unfold pos_of, adv in Epa. cbn [pa] in Epa. lia.
 Qed.
